@@ -689,6 +689,17 @@ pub fn work(env: &Env, ctx: &Ctx, w: usize, nw: usize, plan: &Plan) -> Value {
                     }
                     record(ctx, &mut st, &case, "syscall", &o, counter, &mut viol);
                 }
+                if e.op == OP_READ {
+                    // the file is truncated by someone else after it was
+                    // stat'ed: this and every later read returns 0
+                    let mut world = World::reference();
+                    world.faults.push(Fault { event: e.seq as u64, kind: F_EOF, arg: 0 });
+                    let case = Case { grammar: g.clone(), damage: format!("syscall fault: from event {} on, read returns 0 (file truncated after stat)", e.seq), spec: spec.clone(), world, actions: actions.clone() };
+                    let o = run_case(env, &case);
+                    st.syscall_faults_planned += 1;
+                    bump(&mut st.syscall_faults_fired, "read-eof");
+                    record(ctx, &mut st, &case, "syscall-eof", &o, counter, &mut viol);
+                }
             }
         }
     }
